@@ -22,7 +22,8 @@
 EXTENDS Integers, Sequences, FiniteSets, TLC
 
 CONSTANTS Heights, Variants, MetaKeys, Values, DropStaleIndex,
-          AtomicSave      \* TRUE: a block save is one atomic write
+          AtomicSave,     \* TRUE: a block save is one atomic write
+          CommitOnError   \* deviation (seeded C14g): a save that fails on one operation of its batch still commits the operations queued before it
 
 VARIABLES pend,     \* a save whose first write (stale index removal) is done and whose batch is not: <<h, v>> or <<>>
           blocks,   \* height -> variant (partial function)
@@ -64,9 +65,15 @@ SaveSecondWrite == /\ pend # <<>> /\ pend' = <<>>
 Crash == /\ pend # <<>> /\ pend' = <<>> /\ UNCHANGED <<blocks, index, height, state, meta>>
 \* a save is a single write unless it is non-atomic and replaces a block of another hash
 OneWrite(h, v) == IF AtomicSave THEN TRUE ELSE IF ~Has(h) THEN TRUE ELSE blocks[h] = v
+\* a block save one of whose batch operations is refused (here: the hash index entry, the last one queued) returns an
+\* error; all or nothing: nothing
+SaveRefused(h, v) ==
+    IF CommitOnError THEN blocks' = (h :> v) @@ blocks /\ UNCHANGED <<index, height, state, meta>>
+                     ELSE UNCHANGED <<blocks, index, height, state, meta>>
 AtomicOp ==
     /\ pend = <<>> /\ pend' = pend
     /\ \/ \E h \in Heights, v \in Variants : OneWrite(h, v) /\ SaveEff(h, v)
+       \/ \E h \in Heights, v \in Variants : SaveRefused(h, v)
        \/ \E n \in Heights \cup {0} : SetHeightEff(n)
        \/ \E s \in Values : UpdateStateEff(s)
        \/ \E k \in MetaKeys, x \in Values : SetMetaEff(k, x)
